@@ -485,6 +485,53 @@ def der_reuse_worker(shards):
     return acc
 
 
+SEQ_KW = ({}, {"strict": True}, {"nr_elements": 2}, {"nr_elements": (1, 3)}, {"only_ints_expected": True},
+          {"nr_elements": 1, "only_ints_expected": True})
+
+
+def _seqkw_decode(obj, x, kw):
+    try:
+        obj.decode(x, **kw)
+        return ("accept", _der_observe(obj))
+    except ValueError:
+        return ("ValueError", None)
+    except Exception as e:  # noqa
+        return (type(e).__name__, None)
+
+
+def der_seqkw_history(hist, acc):
+    """hist: [(index into the DerSequence alphabet, index into SEQ_KW)] on ONE DerSequence object: the keyword constraints of a call
+    (nr_elements, only_ints_expected, strict) apply to that call only"""
+    from Crypto.Util import asn1
+    xs = _reuse_alphabet("DerSequence")
+    obj = asn1.DerSequence()
+    for n, (i, k) in enumerate(hist):
+        acc.count("evaluations")
+        got = _seqkw_decode(obj, xs[i], SEQ_KW[k])
+        want = _seqkw_decode(asn1.DerSequence(), xs[i], SEQ_KW[k])
+        if got != want:
+            acc.violation("C13/der-reuse/DerSequence/keyword-of-an-earlier-decode-still-applies",
+                          "DerSequence: after %s on the same object, decode(%s, %s) gives %s; a fresh object gives %s"
+                          % ([(xs[j].hex(), SEQ_KW[q]) for j, q in hist[:n]], xs[i].hex(), SEQ_KW[k], short(repr(got)), short(repr(want))),
+                          {"part": "der-seqkw", "history": [list(h) for h in hist[:n + 1]]}, size=n + 1)
+            return
+
+
+def der_seqkw_worker(shards):
+    acc = Acc()
+    nx = len(_reuse_alphabet("DerSequence"))
+    ops = [(i, k) for i in range(nx) for k in range(len(SEQ_KW))]
+    for first, depth in shards:
+        nh = 0
+        for d in range(2, depth + 1):
+            for rest in itertools.product(ops, repeat=d - 1):
+                der_seqkw_history((ops[first],) + rest, acc)
+                nh += 1
+        acc.count("der_seqkw_histories", nh)
+    acc.seen("classes", ("der-seqkw", len(ops)))
+    return acc
+
+
 # ---- mutation closure of valid encodings ---------------------------------
 def der_seeds():
     from Crypto.Util import asn1
@@ -2239,9 +2286,15 @@ def run(ctx):
         sh += [[("l2bpow", c)] for c in chunks(list(range(2, 4201)), 32)]
         sh += [[("b2l", a, a + 32)] for a in range(0, 256, 32)] + [[("rfc1751-bits",)], [("rfc1751-bytes",)]]
     ctx.pmap(num_worker, sh)
+    # DER: keyword constraints of DerSequence.decode across calls on one object
+    nops = len(_reuse_alphabet("DerSequence")) * len(SEQ_KW)
+    ctx.pmap(der_seqkw_worker, [[(f, 2 if q else 3)] for f in range(nops)])
     # PEM
     pem_top = 110 if not q else 60
     sh = [[("rt", a, a + 10)] for a in range(0, pem_top, 10)] + [[("mut", i, 16)] for i in range(16)]
+    if q:
+        # every DEK-Info algorithm on two data lengths (texts built by the reference): returned data, marker and encryption flag
+        sh += [[("rtc", algo, 16, 17), ("rtc", algo, 33, 34)] for algo in PEM_ALGOS]
     if not q:
         sh = [[("mutc", algo, i, 8)] for algo in PEM_ALGOS + ("lib-clear", "lib-enc") for i in range(8)] + sh
         sh += [[("rt", a, a + 10)] for a in range(110, 400, 10)]
@@ -2352,7 +2405,9 @@ def replay(case, acc):
     part = case["part"]
     if not _EXTRA:
         _EXTRA, _CLS = True, None       # replays offer the input to every decoder variant (a superset of the quick tier's)
-    if part == "der":
+    if part == "der-seqkw":
+        der_seqkw_history([tuple(h) for h in case["history"]], acc)
+    elif part == "der":
         der_check(case["x"], acc, "replay")
     elif part == "der-reuse":
         if _CLS is None:
